@@ -288,6 +288,10 @@ _add("C14", "Session 5: the FILE is modelled (Model/MocSetFile.lean: the metadat
 _add("C16", "Session 5: append_interrupted_file_view: on the file model a writer killed after k of the three stores of append (data, index word, metadata word) leaves a file READ BACK as exactly the old moc-set (k <= 2) or exactly the new one (k = 3), for every reachable file; "
             "append_interrupted_then_retry: the leftover bytes are overwritten by the next append. Tie: at every append kill point the real file left behind is compared word for word / byte for byte with fileAppendPrefix (op msfk).")
 _add("C19", "Session 5: RFC 3339 timestamps and time ranges with fractions of a second are driven at depths 61 / 51 / 42 (seed C19e).")
+_add("C07", "Session 5 (FITS): the WHOLE file is modelled byte for byte (Model/Fits.lean: the primary block, the BINTABLE cards with NAXIS1 / NAXIS2 right-justified, the MOC cards of each quantity in the order of the keyword map, END, blank fill, big-endian data unit, zero padding; range and NUNIQ encodings) and proved: "
+            "fits_file_blocks (length multiple of 2880), fits_file_structure (the reader's unsigned-value parser applied to the NAXIS1 / NAXIS2 cards returns the word size and twice the number of ranges, their product is exactly the number of data bytes written, and those bytes decode to exactly the ranges), fits_nuniq_file; "
+            "tie: length + FNV-1a of every real file written (in-memory and lazy sources, 3 quantities x 3 widths; NUNIQ files) = the model's file (ops fits_file, fits_nuniq_file), so any change to a header card is reported.")
+_add("C11", "Session 5 (FITS): fits_st_file_roundtrip: the whole ST FITS file (header cards with MOCDIM TIME.SPACE and both depths, flagged rows, padding) is made of 2880-byte blocks, declares NAXIS2 = twice the number of ranges, and the rows extracted from its data bytes are decoded to exactly the elements written; tie: the real file byte for byte (op st_fits_file).")
 _add("C20", "After the bug hunt the four descent theorems carry the STRICT inequality of the property (a threshold exactly on a sub-cell boundary cuts nothing and is met exactly; the code was off by a whole piece, repaired b3d1506; the model has the guards "
             "of the repaired code and the reverse lower descent recurses into itself, d3d6aa3), the harness judges the implementation with the exact sum of the pieces really cut, thresholds on every quarter / finest-piece boundary in both density orders are generated, "
             "and the sky-map reader is driven with skipped, UNSEEN and NaN pixels against the model (repaired 655082e). The whole-selection theorem selection_mass_bracket carries the strict inequality too (third conjunct; equality when no boundary cell is descended into).")
